@@ -50,12 +50,14 @@ BASE = ('import sys\n'
         '    if mode == "replace-stdout":\n        import io\n        sys.stdout = io.StringIO()\n        print("lost")\n        return 2\n'
         '    if mode == "close-stdout":\n        sys.stdout.close()\n        return 4\n'
         '    if mode == "close-stdout-then-print":\n        sys.stdout.close()\n        print("into the void")\n        return 5\n'
+        '    if mode == "rebind-module":\n        import types\n        sys.modules["json"] = types.ModuleType("json")\n        sys.modules["textwrap"] = None\n        return 6\n'
+        '    if mode == "reimport-module":\n        import string\n        del sys.modules["string"]\n        import string as again\n        return 7\n'
         '    if mode == "replace-sleep":\n        import time\n        time.sleep = lambda s: None\n        return 3\n'
         '    if mode == "import-json":\n        import colorsys, wave, sunau\n        return len(colorsys.__name__)\n'
         '    if mode == "recursion":\n        return finish(mode)\n'
         '    return 0\n')
 MODES = ['normal', 'value-error', 'key-error', 'bad-str', 'system-exit', 'keyboard-interrupt', 'generator-exit', 'base-exception',
-         'busy-loop', 'block-forever', 'replace-stdout', 'replace-sleep', 'import-json', 'recursion', 'close-stdout', 'close-stdout-then-print']
+         'busy-loop', 'block-forever', 'replace-stdout', 'replace-sleep', 'import-json', 'recursion', 'close-stdout', 'close-stdout-then-print', 'rebind-module', 'reimport-module']
 ABNORMAL = set(MODES) - {'normal', 'import-json'}
 ENTRIES = ['run', 'call', 'evaluate', 'import', 'nested']
 # "pedal itself failed while recording": one of the sandbox's own recording steps raises once during the execution
